@@ -39,6 +39,7 @@ func runC09(p *load.Program, r *oblig.Report) {
 	// synchronous WriteMessages waiting for it never returns)
 	c07PutDiscipline(p, r, "C09.R5 Close hands the open batch to the sender before the queue is closed")
 	c09ReaderRunDefers(p, r)
+	c09FetchAfterClose(p, r)
 }
 
 // c09ReaderRunDefers: Reader.Close waits for r.done; the group (LeaveGroup, coordinator connection) must be closed
@@ -1004,4 +1005,39 @@ func selectAt(ins ssa.Instruction, pred func(*ssa.Select) bool) bool {
 		}
 	})
 	return found
+}
+
+// c09FetchAfterClose: after Close, FetchMessage returns io.EOF — also when messages fetched before Close are still
+// queued: the closed flag is tested (under the mutex) before the queue is looked at.
+func c09FetchAfterClose(p *load.Program, r *oblig.Report) {
+	const rule = "C09.R5 results after Close"
+	fn := p.Func("", "(*Reader).FetchMessage")
+	if fn == nil {
+		r.Lost(rule, "kafka.(*Reader).FetchMessage")
+		return
+	}
+	ok := false
+	for _, b := range an.Blocks(fn) {
+		iff, ci := an.IfCond(b)
+		if iff == nil || ci == nil {
+			continue
+		}
+		if !strings.HasSuffix(clean(an.Shape(ci.X)), ".closed") {
+			continue
+		}
+		// successor taken when closed is true
+		closedIdx := 0
+		if ci.Neg {
+			closedIdx = 1
+		}
+		if ci.Op == token.EQL || ci.Op == token.NEQ {
+			continue
+		}
+		q := an.PathQuery{Fn: fn, Target: func(i ssa.Instruction) bool { _, isSel := i.(*ssa.Select); return isSel }}
+		if q.ReachableFrom(an.Point{B: b.Succs[closedIdx], Idx: -1}) == nil {
+			ok = true
+		}
+	}
+	r.Check(ok, rule, "kafka.(*Reader).FetchMessage returns io.EOF once the reader is closed, whatever is still queued", p.Pos(fn.Pos()),
+		"if r.closed { return Message{}, io.EOF } before receiving from r.msgs", "the closed edge still reaches the receive from the message queue")
 }
